@@ -113,9 +113,12 @@ def run(chk):
                   "in the object and array loops (sibling agreement), second visit only for containers with the SECOND flag")
     chk.rule("C17.R5", "children are visited in document order with (child, this node, key | &index) arguments; the second visit "
                        "repeats the first visit's parent/key/index arguments")
+    LOCAL_FRAMES.clear()
+    LOCAL_FRAMES.update(g.name for g in m.functions.values() if not g.is_decl and (g.internal or g.name == "_json_c_visit"))
     total_paths = 0
     total_assign = 0
-    params = [("ptr", "jso", ()), ("ptr", "parent", ()), ("ptr", "key", ()), ("ptr", "index", ()), ("ptr", "userfunc", ()), ("ptr", "userarg", ())]
+    params = [("ptr", "jso", ()), ("ptr", "parent", ()), ("ptr", "key", ()), ("ptr", "index", ())]
+    params += [("ptr", nm or "arg%d" % k, ()) for k, (t, nm) in enumerate(f.params) if k >= 4]
     for tname in TYPES:
         is_container = tname in ("object", "array")
         for n in (range(NMAX + 1) if is_container else [0]):
@@ -192,6 +195,9 @@ def _names(vals):
     return [_name(v) for v in vals]
 
 
+LOCAL_FRAMES = set()
+
+
 def _check_args(tname, events):
     """document order and argument discipline on one path"""
     first = None
@@ -219,6 +225,12 @@ def _check_args(tname, events):
             else:
                 if args[0] != ("sym", "elem", pe.C(k)) or args[2] != pe.C(0) or args[3][0] != "ptr":
                     return "array element %d visited out of order or with wrong key/index arguments: %r" % (k, args[:4])
+                # the index lives in storage of this activation: a slot shared between the levels of the recursion is overwritten
+                # by every array visited below an element before that element's second visit reads it
+                if not (args[3][1].split(".")[0] in LOCAL_FRAMES):
+                    return ("array element %d is given an index pointer into %s, storage that is not local to this activation of the "
+                            "traversal: arrays visited below the element overwrite it, and the element's second visit (a container "
+                            "inside an array) reports the wrong index" % (k, args[3][1]))
             k += 1
     return None
 
